@@ -267,6 +267,7 @@ Definition ref_released_sites : list (str * (str * str)) := [
   (lit "handlers/ZIP.py", (lit "VFSZip.__init__", lit "self.chain.open"));      (* zipfd, closed by VFSZip.__del__ *)
   (lit "handlers/ZIP.py", (lit "VFSZip.__init__", lit "zipfile.ZipFile"));
   (lit "handlers/ZIP.py", (lit "VFSZip.init_cache", lit "shelve.open"));
+  (lit "handlers/ZIP.py", (lit "VFSZip.open", lit "self.chain.open"));          (* primitive: a selector outside the archive is opened by the chained VFS and handed to the caller's with block *)
   (lit "handlers/ZIP.py", (lit "VFSZip.open", lit "self.zip.open"));            (* primitive: handed to a with block by the caller *)
   (lit "handlers/base.py", (lit "VFS_Real.open", lit "open"));                  (* primitive: handed to a with block by the caller *)
   (lit "handlers/mbox.py", (lit "MBoxFolderHandler.prepare", lit "mbox"));
